@@ -217,7 +217,6 @@ class WorkerComms:
         if self._tasks_completed_array is not None:
             self._tasks_completed_array[:] = [0] * self.n_jobs
         self.clear_progress_bar_shutdown()
-        self.clear_progress_bar_complete()
 
     ################
     # Progress bar
